@@ -82,15 +82,45 @@ def _one(t):
         m.call(GET_PATH, [Ptr(V.PDU, 0), Ptr('pathobj', 0)])
         m.call(GET_DATA, [Ptr(V.PDU, 0), Ptr('val', 0)])
         return None
-    ws = bpa.analyse(mod, script, lambda: ([], regions()), max_worlds=2, max_steps=4000000, gcache=ctx.gcache)
+    results = []
+
+    def script2(m, _):
+        rets.clear()
+        script(m, _)
+        results.append(dict(rets))
+        return None
+    ws = bpa.analyse(mod, script2, lambda: ([], regions()), max_worlds=32, max_steps=4000000, gcache=ctx.gcache)
     where = FC.fnloc(ctx, GET_DATA)
-    if len(ws) != 1 or ws[0].status != 'ok':
-        return [('undecided', key, '%s [%s]: %s' % (where, desc, [w.reason for w in ws]))], 0
-    w = ws[0]
+    # pair every finished world with the return values recorded during its execution
+    done = [w for w in ws if w.status in ('ok',)]
+    oks, err = FC.ok_worlds(ws)
+    if err:
+        return [('undecided', key, '%s [%s]: %s' % (where, desc, err))], 0
+    # results[] has one entry per execution that reached the end of the script, in execution order
+    k = 0
+    pairs = []
+    for w in ws:
+        if w.status == 'ok':
+            pairs.append((w, results[k] if k < len(results) else {}))
+            k += 1
+    for w, rr in pairs:
+        if w not in oks:
+            continue
+        with FC.with_world(w.decisions):
+            _judge_world(ctx, mod, t, w, rr, out, key, desc, where, total, dataoff)
+        if out:
+            break
+    return out, (0 if out else 1)
+
+
+def _judge_world(ctx, mod, t, w, rets, out, key, desc, where, total, dataoff):
+    mode, plen, code, count, nulldst = t
+    name, ew, kind = V.DATATYPES[code]
+    nbytes = count * ew
     R = w.regions
     # on-wire path size
     want = V.path_wire_len(mode, plen)
-    if rets['calc'] != want:
+    if rets.get('calc') != want:
         out.append(('violation', key + ':calc', '%s [%s]: reports an on-wire path size of %r, the message has %d'
                     % (FC.fnloc(ctx, CALC), desc, rets['calc'], want)))
     # path
@@ -149,7 +179,6 @@ def _one(t):
     if w.oob:
         out.append(('violation', key + ':extent', '%s [%s]: %s - outside the message / the destination of the reported length'
                     % (where, desc, FC.fmt_oob(w.oob[0]))))
-    return out, (0 if out else 1)
 
 
 def shapes(tier):
